@@ -2,6 +2,8 @@ import BoltonsVerif.Common
 import BoltonsVerif.C04.Model
 import BoltonsVerif.C04.Closed
 import BoltonsVerif.C04.View
+import BoltonsVerif.C04.Names
+import BoltonsVerif.Generated.C04_Consts
 /-
 C04 line protocol.  Two kinds of line:
 
@@ -26,6 +28,9 @@ C04 line protocol.  Two kinds of line:
     output:  the tokens of `saverTrace`
   T <flags> <perms> <umask> <dest> <part> <raises> <sizes> closed   the same for a body that closes the part file
     output:  the tokens of `saverTraceClosed`
+
+  P <dest base name, UTF-8 hex> <part_file: N = not given, else UTF-8 hex (`-` = empty string)>
+    output:  ok <part file name, UTF-8 hex> | refused         (`C04.partName` with the regenerated suffix)
 -/
 namespace C04.Driver
 open BV C04
@@ -168,6 +173,13 @@ def handle (line : String) : String :=
       let t := saverTraceClosed cfg (mkFS dest part umask) (sizes.map fun n => (List.replicate n 1, 0))
       " ".intercalate (t.map showEv)
     | _, _, _, _, _, _ => "bad-op"
+  | ["P", d, pf] =>
+    match hexToString? d, (if pf = "N" then some none else (hexToString? pf).map some) with
+    | some d, some pf =>
+      match partName Gen.partSuffix d.toList (pf.map String.toList) with
+      | some n => s!"ok {stringToHex (String.ofList n)}"
+      | none => "refused"
+    | _, _ => "bad-op"
   | _ => "bad-op"
 
 end C04.Driver
